@@ -234,6 +234,23 @@ def isWs (c : Nat) : Bool := c == 32 || c == 10 || c == 9 || c == 13
 /-- `StringUtils::Trim` (StringUtils.hpp:53-109) as a function on the unit list. -/
 def trimList (l : List Nat) : List Nat := ((l.dropWhile isWs).reverse.dropWhile isWs).reverse
 
+/-- `StringUtils::TrimLeft(str, offset&, end_offset)` (StringUtils.hpp:53-72): the new `offset`. -/
+def trimLeftOff (u : List Nat) (off end_ : Nat) : Nat :=
+  off + (((u.take end_).drop off).takeWhile isWs).length
+
+/-- `StringUtils::TrimRight(str, offset, end_offset&)` (StringUtils.hpp:74-97): the new `end_offset`. -/
+def trimRightEnd (u : List Nat) (off end_ : Nat) : Nat :=
+  end_ - (((u.take end_).drop off).reverse.takeWhile isWs).length
+
+/-- `StringUtils::Trim(str, offset&, length&)` (StringUtils.hpp:101-109): the new `(offset, length)`. -/
+def trimOffLen (u : List Nat) (off len : Nat) : Nat × Nat :=
+  if len ≠ 0 then
+    let e := len + off
+    let o' := trimLeftOff u off e
+    let e' := trimRightEnd u o' e
+    (o', e' - o')
+  else (off, len)
+
 /-- A sub-range `[off, off+n)` of a container's own content, handed back to it as pointer + length
 (or as a view).  The value is taken before the container changes. -/
 def ownSlice (d : List Nat) (off n : Nat) : List Nat := (d.drop off).take n
